@@ -354,6 +354,8 @@ T_QAdvance ==
     /\ ChkP(IsOk(E.res), {"C03", "C01"}, "advance-failed-on-a-well-formed-packet")
     /\ \E nq \in {QAdvance(qs.q, qs.pkts[qs.q.seen + 1], QInf)} :
          /\ ChkP(IsOk(E.res) => E.avail = QAvail(nq), {"C03", "C01"}, "points-available-after-advance")
+         \* cost model bound to the code: the bytes this advance moved are exactly the model's (hook: work counter)
+         /\ ("work" \in DOMAIN E /\ IsOk(E.res)) => ChkP(E.work = nq.work, {"C09", "C03"}, "bytes-moved-by-advance-differ-from-the-cost-model")
          /\ Chk(QWellFormed(nq), "S:queue-model-ill-formed")
          /\ qs' = [qs EXCEPT !.q = nq]
     /\ QUnch
